@@ -40,7 +40,7 @@ def run_path(a5, geo, c, r, ctx, cls, choose, jumps=False):
     while cr < depth:
         if jumps and cr + 2 <= depth and ctx.rnd.random() < 0.25:
             # several levels in one call (up to 4^5 or 5 x 4^4 descendants), then one of them
-            j = ctx.rnd.randint(2, min(5 if cr >= 0 else 3, depth - cr))
+            j = ctx.rnd.randint(2, min(7 if cr >= 0 else 3, depth - cr))
             kids = a5.cell_to_children(cur, cr + j)
             prev = cur
             cur = kids[ctx.rnd.randrange(len(kids))]
@@ -101,7 +101,7 @@ def eval_point(a5, geo, p, r, cls, ctx):
         ctx.fail('raises', {'lon': p[0], 'lat': p[1], 'r': r}, exc=repr(e))
         return
     pv = geo.ll_to_vec(math.fmod(float(p[0]), 360.0), float(p[1]))
-    for r2 in sorted({ctx.rnd.randint(0, r - 1) for _ in range(3)}):
+    for r2 in sorted({ctx.rnd.randint(0, r - 1) for _ in range(3)} | {r - 1, max(0, r - 2)}):
         case = {'lon': p[0], 'lat': p[1], 'r': r, 'r2': r2, 'cls': cls}
         ctx.case((p, r, r2))
         try:
@@ -163,7 +163,7 @@ def nesting(a5, geo, ctx):
         if rel > 1e-6:
             ctx.fail('segment_areas_do_not_sum', case, rel=rel)
         # descendants of the face several levels down, obtained in ONE call: all must map back to the face, a sample must be near it
-        for lv in (3, 5):
+        for lv in ((3, 5, 6) if ctx.tier == 'quick' else (3, 5, 6, 7)):
             desc = a5.cell_to_children(f, lv)
             bad = [x for x in desc if a5.cell_to_parent(x, 0) != f]
             if bad or len(set(desc)) != 5 * 4 ** (lv - 1):
@@ -235,9 +235,15 @@ def run_shard(spec, ctx):
         ctx.sample({'beam_start': c, 'r': r})
     else:
         kinds = ['uniform', 'polar', 'frame', 'antimeridian', 'hug', 'edge', 'seam']
+        from rv import branch
+        bpts = branch.hostile_points(a5, rnd, 120, 100, 120)
+        ctx.counters['branch_boundary_points'] = len(bpts)
+        for i_ in range(min(3 * len(bpts), 500)):
+            r_ = rnd.choice((29, 28, 27, 26, rnd.randint(1, 25)))
+            eval_point(a5, geo, branch.near(rnd, bpts[i_ % len(bpts)][0], geo.width(r_)), r_, 'branch', ctx)
         for n in range(spec['n']):
             cls = kinds[n % len(kinds)]
-            p, r = gen.point(rnd, a5, cls, rnd.randint(1, 29))
+            p, r = gen.point(rnd, a5, cls, rnd.choice((29, 28, 27)) if rnd.random() < 0.35 else rnd.randint(1, 29))
             eval_point(a5, geo, p, r, cls, ctx)
         ctx.sample({'lon': p[0], 'lat': p[1], 'r': r})
 
